@@ -101,8 +101,69 @@ def header_rules(ctx):
             else:
                 ctx.undecided('C14.2-longatoms-parity', inst, 'mask is not constant (range %s); shape not recognised' % (rng,), ctx.where(B, ln=st['ln']))
         if not found:
+            # the flags may be read through an accessor `field(k)` = four-bit field number k; then LongAtoms must be field(n) & 1
+            acc = _accessor_calls(ctx.P, B)
+            if acc:
+                found = True
+                cnt = None
+                for bb2, t2 in B.calls():
+                    if (callee_of(t2)[0] or '').endswith('be_u8') and cnt is None:
+                        cnt = ('place', ('payload', ('call', callee_of(t2)[0], bb2)), ('1',))
+                for (cb_, ct_, verdict, karg) in acc:
+                    r_ = ct_['dst']['l']
+                    dl = B.derived_locals([r_]) | {r_}
+                    is_long = any(st2['k'] == '=' and st2['rv']['k'] == 'bin' and st2['rv']['op'] == 'BitAnd' and any(l in dl for l in B._op_locals(st2['rv']['a']) + B._op_locals(st2['rv']['b']))
+                                  and (fold(B.origin(st2['rv']['a'])) == 1 or fold(B.origin(st2['rv']['b'])) == 1) for _b, _j, st2 in B.stmts())
+                    if not is_long:
+                        continue
+                    k_ = karg
+                    while isinstance(k_, tuple) and k_ and k_[0] == 'cast':
+                        k_ = k_[2]
+                    where_ = ctx.where(B, cb_)
+                    if verdict == 'wrong':
+                        ctx.bad('C14.2-longatoms-parity', side, 'the flag-field accessor takes the HIGH half of a byte for an even field number and the low half for an odd one', where_, key='SHAPE:dist-header:%s:longatoms-parity-inverted' % side)
+                    elif cnt is not None and k_ == cnt:
+                        ctx.ok('C14.2-longatoms-parity', side, 'LongAtoms = field(n) & 1 through a four-bit field accessor (low half for even, high half for odd field numbers)', where_)
+                    else:
+                        ctx.bad('C14.2-longatoms-parity', side, 'the LongAtoms bit is read from flag field %s, not from field n (n = number of references): for one of the two parities of n that is a different half-byte '
+                                '(the padding, or the last entry\'s flags), so a long-atom header is read with one-byte lengths' % describe(B, karg), where_, key='SHAPE:dist-header:%s:longatoms-wrong-field' % side)
+                    break
+                else:
+                    found = False
+        if not found:
             ctx.undecided('C14.2-longatoms-parity', side, 'no bit operation on the last flag byte found')
 
+
+    # one decision, two uses: the bool that sets the LongAtoms flag is the bool that picks the width of every length field
+    ctx.rule('C14.2-length-width-follows-flag', 'in the header writer every atom length is written with two bytes exactly when the LongAtoms flag is set: the branch that selects put_u16 / put_u8 for the length tests the same value '
+             'as the branch that sets the flag (a per-atom choice gives short atoms one length byte in a header that announces two)', floor=1)
+    from ..wire import prim_of as _prim14, _val as _val14
+
+    def guards(bb_):
+        out_ = []
+        for (src, vals, dst) in dominating_edges(WB, bb_):
+            sb = WB.switch_bool_edges(src)
+            if sb:
+                out_.append(((sb[0][0], sb[0][1]), dst == sb[1]))
+        return out_
+    flag_sites = [bb for bb, j, st in WB.stmts() if st['k'] == '=' and st['rv']['k'] == 'bin' and st['rv']['op'] == 'BitOr' and "'Sub'" in (str(canon(WB, st['rv']['a'])) + str(canon(WB, st['rv']['b'])))]
+    name_lens = [t['dst']['l'] for bb, t in WB.calls() if (callee_of(t)[0] or '').endswith('::len') and t['args'] and "'name'" in (str(canon(WB, t['args'][0])) + str(operand_chain(WB, t['args'][0])))]
+    dl14 = WB.derived_locals(name_lens) | set(name_lens)
+    lens = [(bb, _prim14(t)[1]) for bb, t in WB.calls() if _prim14(t) is not None and _prim14(t)[0] == 'w' and _prim14(t)[1] in ('u8', 'u16') and len(t['args']) > 1
+            and (any(l in dl14 for l in WB._op_locals(t['args'][1])) or ('len(' in str(_val14(WB, t['args'][1])) and "'name'" in str(canon(WB, t['args'][1]))))]
+    if flag_sites and lens:
+        fg = [g for g in guards(flag_sites[0]) if g[1]]
+        decided = fg[-1][0] if fg else None
+        for bb, w in lens:
+            gs = dict(guards(bb))
+            inst = 'length:%s' % w
+            if decided is not None and decided in gs and gs[decided] == (w == 'u16'):
+                ctx.ok('C14.2-length-width-follows-flag', inst, 'selected by the value that sets the LongAtoms flag', ctx.where(WB, bb))
+            else:
+                ctx.bad('C14.2-length-width-follows-flag', inst, 'the %s-wide atom length is not selected by the decision that sets the LongAtoms flag: in a header with the flag set some lengths are written with one byte (or the other way round) and every reader loses step'
+                        % ('two-byte' if w == 'u16' else 'one-byte'), ctx.where(WB, bb), key='SHAPE:dist-header:writer:length-width-not-by-flag')
+    else:
+        ctx.undecided('C14.2-length-width-follows-flag', 'writer', 'flag site / length writes not located (%d / %d)' % (len(flag_sites), len(lens)))
 
 
 def cache_threading(ctx, rule):
@@ -376,6 +437,63 @@ def run(ctx):
         else:
             ctx.ok('C14.4-atom-walk-uncapped', q.rsplit('::', 1)[1], 'the walk is not cut short while the set holds 255 atoms or fewer', ctx.where(WB))
     ctx.anchor(n_w >= 1, 'an encoder function that fills a &mut HashSet<&Atom>')
+
+
+def _accessor_calls(P, B):
+    """calls in B of a closure that is a four-bit-field accessor: [(bb, call, 'ok'|'wrong', canon of the field number)]"""
+    out = []
+    for bb, t in B.calls():
+        nm = callee_of(t)[0] or ''
+        if not (nm.endswith('Fn::call') or nm.endswith('FnMut::call_mut') or nm.endswith('FnOnce::call_once')) or len(t['args']) < 2:
+            continue
+        o = B.origin(t['args'][0])
+        if not (o[0] == 'agg' and o[1].get('ak') == 'closure'):
+            continue
+        CB = P.B(o[1]['def'])
+        if CB is None:
+            continue
+        v = _is_nibble_accessor(CB)
+        if not v:
+            continue
+        ao = B.origin(t['args'][1])
+        if ao[0] == 'agg' and ao[1].get('ak') == 'tuple' and ao[1]['ops']:
+            out.append((bb, t, v, canon(B, ao[1]['ops'][0])))
+    return out
+
+
+def _is_nibble_accessor(CB):
+    """closure |k| { let b = bytes[k / 2]; if k % 2 == 0 { b & 0x0F } else { b >> 4 } }: 'ok', 'wrong' (halves exchanged) or None"""
+    has_half = any(st['k'] == '=' and st['rv']['k'] == 'bin' and ((st['rv']['op'] == 'Div' and fold(CB.origin(st['rv']['b'])) == 2) or (st['rv']['op'] == 'Shr' and fold(CB.origin(st['rv']['b'])) == 1))
+                   for bb, j, st in CB.stmts())
+    if not has_half:
+        return None
+    for sw in sorted(CB.live_blocks()):
+        sb = CB.switch_bool_edges(sw)
+        if not sb or sb[0][0] != 'bin':
+            continue
+        rv = sb[0][2]
+        s_ = str(canon(CB, rv['a'])) + str(canon(CB, rv['b']))
+        if not (("'Rem'" in s_ and "('const', 2)" in s_) or ("'BitAnd'" in s_ and "('const', 1)" in s_)) or rv['op'] not in ('Eq', 'Ne'):
+            continue
+        ca, cb = canon(CB, rv['a']), canon(CB, rv['b'])
+        k = cb[1] if cb[0] == 'const' else (ca[1] if ca[0] == 'const' else None)
+        if k not in (0, 1):
+            continue
+        even_t = sb[1] if ((rv['op'] == 'Eq') == (k == 0)) else sb[2]
+        odd_t = sb[2] if even_t == sb[1] else sb[1]
+
+        def ops_in(start, other):
+            reg = CB.reachable(start) - CB.reachable(other)
+            low = any(st['k'] == '=' and st['rv']['k'] == 'bin' and st['rv']['op'] == 'BitAnd' and 15 in (fold(CB.origin(st['rv']['a'])), fold(CB.origin(st['rv']['b']))) for bb, j, st in CB.stmts() if bb in reg)
+            high = any(st['k'] == '=' and st['rv']['k'] == 'bin' and st['rv']['op'] == 'Shr' and fold(CB.origin(st['rv']['b'])) == 4 for bb, j, st in CB.stmts() if bb in reg)
+            return low, high
+        el, eh = ops_in(even_t, odd_t)
+        ol, oh = ops_in(odd_t, even_t)
+        if el and oh and not eh:
+            return 'ok'
+        if eh and ol and not el:
+            return 'wrong'
+    return None
 
 
 def _selected_by_parity(B, mask_op):
